@@ -1053,39 +1053,88 @@ VALUES = {
 }
 
 
-def gen_spec(rng):
-    """files {name: text} of a 2-4 namespace spec with a stone_cfg.Route schema of 2-5 attributes"""
-    nns = rng.randint(2, 4)
+def _field_line(rng, nm, kind, union_type):
+    ty = {'bool': 'Boolean', 'int': 'Int64', 'float': 'Float64', 'str': 'String', 'nstr': 'String?',
+          'nint': 'Int32?', 'union': union_type, 'bytes': 'Bytes'}
+    if kind in ('nstr', 'nint'):
+        return '    %s %s' % (nm, ty[kind])
+    if kind == 'union':
+        return '    %s %s = fast' % (nm, ty[kind])
+    if kind == 'bytes':
+        return '    %s %s = "ab"' % (nm, ty[kind])
+    return '    %s %s = %s' % (nm, ty[kind], rng.choice(VALUES[kind]))
+
+
+def gen_spec(rng, layout=None):
+    """files {name: text} of a 2-4 namespace spec with a stone_cfg.Route schema of 2-5 attributes.
+    layout: 'flat' (struct Route alone), 'parent-ns' (Route extends a struct of a namespace that also has
+    routes), 'parent-common' (… of a namespace `common` without routes), 'grandparent' (two levels in `common`).
+    (A parent inside stone_cfg is impossible: only `Route` may be defined there.)
+    Returns files, namespace names (as the Api lists them), all fields [(name, kind)] own and inherited."""
+    layout = layout or rng.choice(['flat', 'flat', 'parent-ns', 'parent-common', 'parent-common', 'grandparent'])
+    nns = rng.randint(2, 4 if layout in ('flat', 'parent-ns') else 3)
     ns_names = ['n%d' % i for i in range(nns)]
     if rng.random() < 0.3:
         ns_names[-1] = 'zeta'
-    fields = []
     names = rng.sample(FIELD_POOL, rng.randint(2, 5))
     use_union = rng.random() < 0.3
+    fields = []
     for nm in names:
         kind = rng.choice(['bool', 'int', 'float', 'str', 'str', 'nstr', 'nint', 'union' if use_union else 'str',
                            'bytes'])
         fields.append((nm, kind))
-    ty = {'bool': 'Boolean', 'int': 'Int64', 'float': 'Float64', 'str': 'String', 'nstr': 'String?',
-          'nint': 'Int32?', 'union': '%s.Mode' % ns_names[0], 'bytes': 'Bytes'}
-    cfg = ['namespace stone_cfg', '']
-    if any(k == 'union' for _n, k in fields):
-        cfg += ['import %s' % ns_names[0], '']
-    cfg.append('struct Route')
-    for nm, kind in fields:
-        if kind in ('nstr', 'nint'):
-            cfg.append('    %s %s' % (nm, ty[kind]))
-        elif kind == 'union':
-            cfg.append('    %s %s = fast' % (nm, ty[kind]))
-        elif kind == 'bytes':
-            cfg.append('    %s %s = "ab"' % (nm, ty[kind]))
+    # split into levels: own fields of Route, fields of the parent, fields of the grandparent
+    if layout == 'flat':
+        own, par, grand = fields, [], []
+    else:
+        k = rng.randint(1, len(fields))              # at least one inherited attribute
+        inh, own = fields[:k], fields[k:]
+        if layout == 'grandparent' and len(inh) > 1:
+            g = rng.randint(1, len(inh) - 1)
+            grand, par = inh[:g], inh[g:]
         else:
-            cfg.append('    %s %s = %s' % (nm, ty[kind], rng.choice(VALUES[kind])))
+            par, grand = inh, []
+    parent_ns = {'flat': None, 'parent-ns': rng.choice(ns_names), 'parent-common': 'common',
+                 'grandparent': 'common'}[layout]
+    union_ns = ns_names[0]
+    has_union = any(k == 'union' for _n, k in fields)
+
+    def utype(in_ns):
+        return 'Mode' if in_ns == union_ns else '%s.Mode' % union_ns
+
+    cfg = ['namespace stone_cfg', '']
+    imports = set()
+    if any(k == 'union' for _n, k in own):
+        imports.add(union_ns)
+    if parent_ns:
+        imports.add(parent_ns)
+    for imp in sorted(imports):
+        cfg.append('import %s' % imp)
+    if imports:
+        cfg.append('')
+    cfg.append('struct Route' + (' extends %s.BaseRoute' % parent_ns if parent_ns else ''))
+    for nm, kind in own:
+        cfg.append(_field_line(rng, nm, kind, utype('stone_cfg')))
+    if not own:
+        cfg.append('    "Route attributes are all inherited."')     # a struct without fields needs a body
     files = {'cfg.stone': '\n'.join(cfg) + '\n'}
+
+    def parent_defs(in_ns):
+        out = []
+        if grand:
+            out += ['struct Base0'] + [_field_line(rng, nm, kind, utype(in_ns)) for nm, kind in grand] + ['']
+        out += ['struct BaseRoute' + (' extends Base0' if grand else '')]
+        out += [_field_line(rng, nm, kind, utype(in_ns)) for nm, kind in par] + ['']
+        return out
+
     for idx, ns in enumerate(ns_names):
         lines = ['namespace %s' % ns, '']
-        if idx == 0 and any(k == 'union' for _n, k in fields):
+        if ns == parent_ns and ns != union_ns and any(k == 'union' for _n, k in par + grand):
+            lines += ['import %s' % union_ns, '']
+        if idx == 0 and has_union:
             lines += ['union Mode', '    fast', '    slow', '']
+        if ns == parent_ns:
+            lines += parent_defs(ns)
         ntypes = rng.randint(1, 3)
         tnames = ['T%d%s' % (idx, chr(65 + j)) for j in range(ntypes)]
         for tn in tnames:
@@ -1117,7 +1166,15 @@ def gen_spec(rng):
                     lines.append('        %s = %s' % (nm, v))
             lines.append('')
         files['%s.stone' % ns] = '\n'.join(lines) + '\n'
-    return files, ns_names, fields
+    api_ns = list(ns_names)
+    if parent_ns == 'common':
+        lines = ['namespace common', '']
+        if any(k == 'union' for _n, k in par + grand):
+            lines += ['import %s' % union_ns, '']
+        lines += parent_defs('common')
+        files['common.stone'] = '\n'.join(lines) + '\n'
+        api_ns.append('common')
+    return files, api_ns, fields
 
 
 def route_json(r):
@@ -1137,9 +1194,13 @@ def snapshot(api):
             'data_types': ['%s:%s(%s)' % (type(dt).__name__, dt.name, ','.join(f.name for f in dt.fields))
                            for dt in ns.data_types] + ['by_name:' + k for k in sorted(ns.data_type_by_name)],
         })
+    own = [f.name for f in api.route_schema.fields]
     return {'namespaces': nss,
-            'schema': [f.name for f in api.route_schema.fields],
-            'schema_by_name': list(api.route_schema._fields_by_name.keys())}
+            'schema': own,
+            'schema_by_name': list(api.route_schema._fields_by_name.keys()),
+            # what the schema struct inherits: all_fields minus its own fields
+            'schema_inherited': [f.name for f in api.route_schema.all_fields
+                                 if not any(f is g for g in api.route_schema.fields)]}
 
 
 def canon_route(r):
@@ -1167,6 +1228,7 @@ def canon_api(s):
         } for ns in s['namespaces']],
         'schema': s['schema'],
         'schema_by_name': sorted(s['schema_by_name']),
+        'schema_inherited': sorted(s.get('schema_inherited', [])),
     }
 
 
@@ -1249,7 +1311,9 @@ def ref_prune(env, opts, ftree, fwellformed):
     None (filter outcome open), 'types': [...]} plus 'schema'."""
     snap = env.snap0
     names = [ns['name'] for ns in snap['namespaces']]
-    schema = list(snap['schema'])
+    # the attributes of the property are ALL fields of stone_cfg.Route, inherited ones included: every
+    # route carries a value for each of them and may set it
+    schema = list(snap.get('schema_inherited', [])) + list(snap['schema'])
     w, b, a = opts.get('w', []), opts.get('b', []), opts.get('a', [])
     if any(n not in names for n in w) or any(n not in names for n in b):
         return 'error'
@@ -1258,7 +1322,8 @@ def ref_prune(env, opts, ftree, fwellformed):
     if opts.get('f') and not fwellformed:
         return 'error'
     visible = set(schema) if ':all' in a else set(a)
-    out = {'schema': [n for n in schema if n in visible], 'ns': {}}
+    out = {'schema': [n for n in snap['schema'] if n in visible],
+           'schema_all': [n for n in schema if n in visible], 'ns': {}}
     for ns in snap['namespaces']:
         hidden = (bool(w) and ns['name'] not in w) or ns['name'] in b
         routes = []
@@ -1299,9 +1364,16 @@ def judge_prune(env, opts, ftree, fwellformed, result):
             problems.append(('an unknown name / malformed expression on the command line is ignored instead of '
                              'being reported', sig, {}))
         return problems
+    inherited = set(snap.get('schema_inherited', []))
     if result[0] != 'ok':
-        problems.append(('a valid command line is rejected', {'site': 'cli', 'kind': 'valid-rejected'},
-                         {'exit': result[1], 'stderr': result[2][-300:]}))
+        if (result[1] == 1 and 'Attribute not defined' in result[2]
+                and any(n in inherited for n in opts.get('a', []))):
+            problems.append(('an attribute that stone_cfg.Route inherits cannot be selected with -a: it is '
+                             'reported as not defined', {'site': 'attribute', 'kind': 'inherited-attribute-rejected'},
+                             {'exit': result[1], 'stderr': result[2][-300:]}))
+        else:
+            problems.append(('a valid command line is rejected', {'site': 'cli', 'kind': 'valid-rejected'},
+                             {'exit': result[1], 'stderr': result[2][-300:]}))
         return problems
     api = result[1]
     got_names = list(api.namespaces.keys())
@@ -1314,6 +1386,22 @@ def judge_prune(env, opts, ftree, fwellformed, result):
         problems.append(('the route schema does not show exactly the attributes selected with -a',
                          {'site': 'attribute', 'kind': 'schema-fields'},
                          {'got': got_schema, 'expected': want['schema']}))
+    got_all = [f.name for f in api.route_schema.all_fields]
+    extra = sorted(set(got_all) - set(want['schema_all']))
+    missing = sorted(set(want['schema_all']) - set(got_all))
+    if extra and all(n in inherited for n in extra):
+        problems.append(('inherited fields of stone_cfg.Route stay visible in the route schema (all_fields) '
+                         'although -a does not select them',
+                         {'site': 'attribute', 'kind': 'inherited-schema-field-always-visible'},
+                         {'got_all_fields': got_all, 'expected': want['schema_all']}))
+    elif extra and sorted(got_schema) == sorted(want['schema']):
+        problems.append(('the route schema (all_fields) shows attributes -a does not select',
+                         {'site': 'attribute', 'kind': 'schema-all-fields'},
+                         {'got_all_fields': got_all, 'expected': want['schema_all']}))
+    if missing and sorted(got_schema) == sorted(want['schema']):
+        problems.append(('the route schema (all_fields) lacks attributes selected with -a',
+                         {'site': 'attribute', 'kind': 'schema-all-fields'},
+                         {'got_all_fields': got_all, 'expected': want['schema_all']}))
     if sorted(api.route_schema._fields_by_name) != sorted(got_schema):
         problems.append(('route schema field table out of step with its field list',
                          {'site': 'attribute', 'kind': 'schema-by-name'}, {'got': sorted(api.route_schema._fields_by_name)}))
@@ -1344,12 +1432,26 @@ def judge_prune(env, opts, ftree, fwellformed, result):
                 expa = {(n, v): at for n, v, at in exp['routes']}
                 for r in ns.routes:
                     ga = {k: canon_enc(enc(v)) for k, v in r.attrs.items()}
-                    if ga != expa[(r.name, str(r.version))]:
-                        problems.append(('a route shows attributes other than those selected with -a',
-                                         {'site': 'attribute', 'kind': 'route-attrs'},
-                                         {'namespace': ns.name, 'route': r.name, 'got': sorted(ga),
-                                          'expected': sorted(expa[(r.name, str(r.version))])}))
-                        break
+                    ea = expa[(r.name, str(r.version))]
+                    if ga == ea:
+                        continue
+                    det = {'namespace': ns.name, 'route': r.name, 'got': sorted(ga), 'expected': sorted(ea)}
+                    more = sorted(set(ga) - set(ea))
+                    less = sorted(set(ea) - set(ga))
+                    if more:
+                        problems.append(('a route shows attributes that -a does not select',
+                                         {'site': 'attribute', 'kind': 'route-attrs-extra'}, det))
+                    if less and all(n in inherited for n in less) and ':all' in opts.get('a', []):
+                        problems.append(('with -a :all the attributes stone_cfg.Route inherits are removed from '
+                                         'every route', {'site': 'attribute', 'kind': 'inherited-attribute-dropped-with-:all'},
+                                         det))
+                    elif less:
+                        problems.append(('a route lacks attributes selected with -a',
+                                         {'site': 'attribute', 'kind': 'route-attrs-missing'}, det))
+                    if not more and not less:
+                        problems.append(('a route attribute changed its value',
+                                         {'site': 'attribute', 'kind': 'route-attrs-value'}, det))
+                    break
         bad = tables_consistent_real(ns)
         if bad:
             problems.append(('by-name route table %s of namespace %s disagrees with its route list' % (bad, ns.name),
@@ -1396,15 +1498,20 @@ def plan_runs(rng, env, ns_names, fields):
     """option sets for one spec: all subsets for -w, for -b, for -a (+ :all, unknown names), with
     random companions"""
     schema = [nm for nm, _k in fields]
+    inherited = set(env.snap0.get('schema_inherited', []))
+    own = [n for n in schema if n not in inherited]
     runs = []
 
     def companion_a():
+        # mostly own attributes: selecting an inherited one is refused by the unchanged code (a listed
+        # finding) and would keep the other options of the run from being exercised
         r = rng.random()
         if r < 0.3:
             return []
         if r < 0.45:
             return [':all']
-        return rng.sample(schema, rng.randint(1, len(schema)))
+        pool = own if (own and rng.random() < 0.8) else schema
+        return rng.sample(pool, rng.randint(1, len(pool)))
 
     def companion_f():
         if rng.random() < 0.5:
@@ -1542,6 +1649,7 @@ def suite_prune(ck):
             continue
         ck.hist('cli.prune.namespaces', len(ns_names))
         ck.hist('cli.prune.schema_fields', len(fields))
+        ck.hist('cli.prune.inherited_schema_fields', len(env.snap0['schema_inherited']))
         ck.hist('cli.prune.routes_total', sum(len(ns['routes']) for ns in env.snap0['namespaces']))
         for run in plan_runs(rng, env, ns_names, fields):
             opts = opts_of(run)
